@@ -97,34 +97,37 @@ FeeTxMarks(s, ev, t, ok) ==
      \cup If(tx.granter # "" /\ Has(s.fgrants, FGrantKey(tx.granter, p)) /\ reg /\ known /\ Spendable(s, p, d) + lk < f, "feegrant:payer-cannot-cover-though-granter-pays")
      \cup If(ok /\ HasMsg(ev, {"FRevoke"}), "feegrant:revoked")
 
-RegTxMarks(s, ev, t, ok) ==
-  LET ChOk(k, m) == ChExists(s, k, m.id)
-      KOf(m) == IF m.t \in {"WReg", "WRec", "WBuy"} THEN "wrk" ELSE "bcn"
-      IsRec(m) == m.t \in {"WRec", "BRec"}
-      IsBuy(m) == m.t \in {"WBuy", "BBuy"}
+RegTxMarksK(s, ev, t, ok, k) ==
+  LET ChOk(kk, m) == ChExists(s, kk, m.id)
+      KOf(m) == k
+      IsRec(m) == m.t = (IF k = "wrk" THEN "WRec" ELSE "BRec")
+      IsBuy(m) == m.t = (IF k = "wrk" THEN "WBuy" ELSE "BBuy")
+      L(x) == k \o ":" \o x
       C(m) == ChOf(s, KOf(m), m.id)
-  IN If(ok /\ AnyMsg(ev, LAMBDA m : IsRec(m) /\ ChOk(KOf(m), m) /\ C(m).num >= C(m).limit /\ C(m).limit = s[KOf(m)].p.def), "rec:prune-at-default-limit")
-     \cup If(ok /\ AnyMsg(ev, LAMBDA m : IsRec(m) /\ ChOk(KOf(m), m) /\ C(m).num >= C(m).limit /\ C(m).limit > s[KOf(m)].p.def), "rec:prune-at-raised-limit")
-     \cup If(ok /\ AnyMsg(ev, LAMBDA m : IsRec(m) /\ ChOk(KOf(m), m) /\ C(m).limit > s[KOf(m)].p.max), "rec:limit-above-lowered-max")
+  IN If(ok /\ AnyMsg(ev, LAMBDA m : IsRec(m) /\ ChOk(KOf(m), m) /\ C(m).num >= C(m).limit /\ C(m).limit = s[KOf(m)].p.def), L("rec:prune-at-default-limit"))
+     \cup If(ok /\ AnyMsg(ev, LAMBDA m : IsRec(m) /\ ChOk(KOf(m), m) /\ C(m).num >= C(m).limit /\ C(m).limit > s[KOf(m)].p.def), L("rec:prune-at-raised-limit"))
+     \cup If(ok /\ AnyMsg(ev, LAMBDA m : IsRec(m) /\ ChOk(KOf(m), m) /\ C(m).limit > s[KOf(m)].p.max), L("rec:limit-above-lowered-max"))
      \cup If(ok /\ AnyMsg(ev, LAMBDA m : IsRec(m) /\ ChOk(KOf(m), m) /\ C(m).num < C(m).limit /\ Len(s.aux.ever[KOf(m)][ChIdx(s, KOf(m), m.id)]) > C(m).num),
-             "rec:refill-after-purchase")
-     \cup If(ok /\ AnyMsg(ev, LAMBDA m : m.t = "WRec" /\ m.h >= 500000000), "rec:huge-height")
-     \cup If(AnyMsg(ev, LAMBDA m : m.t = "WRec" /\ ChOk("wrk", m) /\ C(m).last >= 500000000 /\ C(m).owner = m.owner), "rec:after-huge-height")
-     \cup If(AnyMsg(ev, LAMBDA m : m.t = "WRec" /\ ChOk("wrk", m) /\ C(m).owner = m.owner /\ m.h = C(m).last /\ C(m).last > 0), "rec:same-height-again")
-     \cup If(AnyMsg(ev, LAMBDA m : m.t = "WRec" /\ ChOk("wrk", m) /\ C(m).owner = m.owner /\ m.h < C(m).last /\ m.h \notin Keys(C(m).recs)), "rec:pruned-height-again")
-     \cup If(AnyMsg(ev, LAMBDA m : (IsRec(m) \/ IsBuy(m)) /\ ChOk(KOf(m), m) /\ C(m).owner # m.owner), "reg:write-by-stranger")
-     \cup If(ok /\ AnyMsg(ev, LAMBDA m : IsBuy(m) /\ ChOk(KOf(m), m) /\ C(m).limit + m.n = s[KOf(m)].p.max), "buy:exactly-to-max")
-     \cup If(AnyMsg(ev, LAMBDA m : IsBuy(m) /\ ChOk(KOf(m), m) /\ C(m).owner = m.owner /\ C(m).limit + m.n > s[KOf(m)].p.max /\ m.n < 500000000), "buy:over-max")
-     \cup If(AnyMsg(ev, LAMBDA m : IsBuy(m) /\ ChOk(KOf(m), m) /\ C(m).owner = m.owner /\ m.n >= 500000000), "buy:huge")
-     \cup If(AnyMsg(ev, LAMBDA m : IsBuy(m) /\ ChOk(KOf(m), m) /\ C(m).limit > s[KOf(m)].p.max), "buy:limit-above-lowered-max")
+             L("rec:refill-after-purchase"))
+     \cup If(k = "wrk" /\ ok /\ AnyMsg(ev, LAMBDA m : m.t = "WRec" /\ m.h >= 500000000), L("rec:huge-height"))
+     \cup If(k = "wrk" /\ AnyMsg(ev, LAMBDA m : m.t = "WRec" /\ ChOk("wrk", m) /\ C(m).last >= 500000000 /\ C(m).owner = m.owner), L("rec:after-huge-height"))
+     \cup If(k = "wrk" /\ AnyMsg(ev, LAMBDA m : m.t = "WRec" /\ ChOk("wrk", m) /\ C(m).owner = m.owner /\ m.h = C(m).last /\ C(m).last > 0), L("rec:same-height-again"))
+     \cup If(k = "wrk" /\ AnyMsg(ev, LAMBDA m : m.t = "WRec" /\ ChOk("wrk", m) /\ C(m).owner = m.owner /\ m.h < C(m).last /\ m.h \notin Keys(C(m).recs)), L("rec:pruned-height-again"))
+     \cup If(AnyMsg(ev, LAMBDA m : (IsRec(m) \/ IsBuy(m)) /\ ChOk(KOf(m), m) /\ C(m).owner # m.owner), L("reg:write-by-stranger"))
+     \cup If(ok /\ AnyMsg(ev, LAMBDA m : IsBuy(m) /\ ChOk(KOf(m), m) /\ C(m).limit + m.n = s[KOf(m)].p.max), L("buy:exactly-to-max"))
+     \cup If(AnyMsg(ev, LAMBDA m : IsBuy(m) /\ ChOk(KOf(m), m) /\ C(m).owner = m.owner /\ C(m).limit + m.n > s[KOf(m)].p.max /\ m.n < 500000000), L("buy:over-max"))
+     \cup If(AnyMsg(ev, LAMBDA m : IsBuy(m) /\ ChOk(KOf(m), m) /\ C(m).owner = m.owner /\ m.n >= 500000000), L("buy:huge"))
+     \cup If(AnyMsg(ev, LAMBDA m : IsBuy(m) /\ ChOk(KOf(m), m) /\ C(m).limit > s[KOf(m)].p.max), L("buy:limit-above-lowered-max"))
      \cup If(NestedRegistryOps(ev.msgs) /\ AnyMsg(ev, LAMBDA m : IsBuy(m) /\ ChOk(KOf(m), m) /\ C(m).owner = m.owner /\ C(m).limit > s[KOf(m)].p.max),
-             "buy:nested-with-limit-above-lowered-max")
+             L("buy:nested-with-limit-above-lowered-max"))
      \cup If(NestedRegistryOps(ev.msgs) /\ AnyMsg(ev, LAMBDA m : IsBuy(m) /\ ChOk(KOf(m), m) /\ C(m).owner = m.owner /\ C(m).limit + m.n > s[KOf(m)].p.max),
-             "buy:nested-over-max")
-     \cup If(~ok /\ Len(ev.msgs) > 1 /\ ev.msgs[1].t \in {"WReg", "BReg"} /\ t.wrk.next = s.wrk.next /\ t.bcn.next = s.bcn.next, "reg:registration-rolled-back")
-     \cup If(Cardinality({ j \in DOMAIN MsgsOf(ev) : IsRec(MsgsOf(ev)[j]) }) >= 2 /\ ok, "rec:two-in-one-tx")
-     \cup If(Cardinality({ j \in DOMAIN MsgsOf(ev) : IsBuy(MsgsOf(ev)[j]) }) >= 2, "buy:two-in-one-tx")
-     \cup If(ok /\ HasMsg(ev, {"WReg"}) /\ Len(s.wrk.ch) >= 1 /\ s.wrk.ch[Len(s.wrk.ch)].owner # ev.msgs[1].owner, "reg:second-owner")
+             L("buy:nested-over-max"))
+     \cup If(~ok /\ Len(ev.msgs) > 1 /\ ev.msgs[1].t = (IF k = "wrk" THEN "WReg" ELSE "BReg") /\ t.wrk.next = s.wrk.next /\ t.bcn.next = s.bcn.next, L("reg:registration-rolled-back"))
+     \cup If(Cardinality({ j \in DOMAIN MsgsOf(ev) : IsRec(MsgsOf(ev)[j]) }) >= 2 /\ ok, L("rec:two-in-one-tx"))
+     \cup If(Cardinality({ j \in DOMAIN MsgsOf(ev) : IsBuy(MsgsOf(ev)[j]) }) >= 2, L("buy:two-in-one-tx"))
+     \cup If(ok /\ HasMsg(ev, {IF k = "wrk" THEN "WReg" ELSE "BReg"}) /\ Len(s[k].ch) >= 1 /\ s[k].ch[Len(s[k].ch)].owner # ev.msgs[1].owner, L("reg:second-owner"))
+
+RegTxMarks(s, ev, t, ok) == RegTxMarksK(s, ev, t, ok, "wrk") \cup RegTxMarksK(s, ev, t, ok, "bcn")
 
 SameSecondLabel(T, w) ==
   CASE T = "STopUp" -> (IF w = "before" THEN "topup:in-the-second-of-the-zero-time-before-it" ELSE "topup:in-the-second-of-the-zero-time-after-it")
@@ -227,9 +230,9 @@ AllLabels == <<
   "unlock:partial+others-locked", "unlock:partial-alone", "unlock:part-of-locked+others-locked", "unlock:exactly-all",
   "unlock:refused-or-rolled-back", "unlock:kept-though-message-failed", "unlock:fee-with-extra-denomination", "unlock:vesting-payer",
   "fee:non-registry-tx-of-locked-holder", "exec:nested-registry-op", "send:to-escrow", "multi:later-message-fails-after-unlock",
-  "rec:prune-at-default-limit", "rec:prune-at-raised-limit", "rec:limit-above-lowered-max", "rec:refill-after-purchase", "rec:huge-height",
-  "rec:after-huge-height", "rec:same-height-again", "rec:pruned-height-again", "reg:write-by-stranger", "buy:exactly-to-max", "buy:over-max",
-  "buy:huge", "buy:limit-above-lowered-max", "reg:registration-rolled-back", "rec:two-in-one-tx", "buy:two-in-one-tx", "reg:second-owner",
+  "wrk:rec:prune-at-default-limit", "bcn:rec:prune-at-default-limit", "wrk:rec:prune-at-raised-limit", "bcn:rec:prune-at-raised-limit", "wrk:rec:limit-above-lowered-max", "bcn:rec:limit-above-lowered-max", "wrk:rec:refill-after-purchase", "bcn:rec:refill-after-purchase", "wrk:rec:huge-height", "bcn:rec:huge-height",
+  "wrk:rec:after-huge-height", "bcn:rec:after-huge-height", "wrk:rec:same-height-again", "bcn:rec:same-height-again", "wrk:rec:pruned-height-again", "bcn:rec:pruned-height-again", "wrk:reg:write-by-stranger", "bcn:reg:write-by-stranger", "wrk:buy:exactly-to-max", "bcn:buy:exactly-to-max", "wrk:buy:over-max", "bcn:buy:over-max",
+  "wrk:buy:huge", "bcn:buy:huge", "wrk:buy:limit-above-lowered-max", "bcn:buy:limit-above-lowered-max", "wrk:reg:registration-rolled-back", "bcn:reg:registration-rolled-back", "wrk:rec:two-in-one-tx", "bcn:rec:two-in-one-tx", "wrk:buy:two-in-one-tx", "bcn:buy:two-in-one-tx", "wrk:reg:second-owner", "bcn:reg:second-owner",
   "release:fee-100-percent", "release:fee-zero", "claim:at-or-after-zero-time", "claim:sub-second", "claim:fractional-seconds", "claim:drained",
   "rate:live-with-elapsed-seconds", "rate:expired", "rate:drained", "topup:live-with-elapsed-seconds", "topup:expired-with-remainder",
   "topup:drained", "cancel:live-with-elapsed-seconds", "cancel:expired", "cancel:drained", "create:second-stream-same-denomination",
@@ -239,8 +242,8 @@ AllLabels == <<
   "ghostparams:tally-outcome-would-differ", "ghostparams:registry-op", "ghostparams:stream-release", "ghostparams:decision",
   "feegrant:registry-tx-of-locked-holder-paid-by-granter", "feegrant:registry-tx-paid-by-granter", "feegrant:other-tx-paid-by-granter",
   "feegrant:no-allowance", "feegrant:granter-cannot-pay", "feegrant:payer-cannot-cover-though-granter-pays", "feegrant:revoked",
-  "decide:by-removed-signer", "whitelist:by-removed-signer", "ent:accepted-from-non-signer", "buy:nested-with-limit-above-lowered-max",
-  "buy:nested-over-max", "topup:drained-with-zero-time-equal-to-now", "topup:zero-time-equal-to-now", "claim:zero-time-equal-to-now",
+  "decide:by-removed-signer", "whitelist:by-removed-signer", "ent:accepted-from-non-signer", "wrk:buy:nested-with-limit-above-lowered-max", "bcn:buy:nested-with-limit-above-lowered-max",
+  "wrk:buy:nested-over-max", "bcn:buy:nested-over-max", "topup:drained-with-zero-time-equal-to-now", "topup:zero-time-equal-to-now", "claim:zero-time-equal-to-now",
   "gov:proposal-rolled-back-after-first-message", "complete:two-same-purchaser",
   "topup:in-the-second-of-the-zero-time-before-it", "topup:in-the-second-of-the-zero-time-after-it",
   "claim:in-the-second-of-the-zero-time-before-it", "claim:in-the-second-of-the-zero-time-after-it",
